@@ -157,7 +157,36 @@ func (R *Repository) loadCRL(entry *Entry, chains *core.CertificateChains) (err 
 		return err
 	}
 	verifhook.Hit("repo.load.fetched", R, entry)
-	var processor = crlstore.CRLPersisterProcessor{CRLStore: entry.CRLStore}
+	//the crl is parsed into a temporary store which only replaces the store used for lookups after the crl was accepted.
+	//This way entries of a crl which is rejected (parse error, critical extension, signature) are never used for lookups
+	//and are never found on disk after a restart
+	identifier, err := entry.CRLLoader.GetCRLLocationIdentifier()
+	if err != nil {
+		return err
+	}
+	store, err := R.Factory.CreateStore(identifier, true)
+	if err != nil {
+		return err
+	}
+	defer func() {
+		if err != nil {
+			store.Close()
+			err2 := store.Delete()
+			if err2 != nil {
+				R.logger.Warn("failed to delete database", zap.Error(err2))
+			}
+		}
+	}()
+	var processor = crlstore.CRLPersisterProcessor{CRLStore: store}
+	//keep the crl locations which were stored for this entry
+	crlLocations, err := entry.CRLStore.GetCRLLocations()
+	if err != nil {
+		return fmt.Errorf("crl locations of %s are not known yet: %v", entry.CRLLoader.GetDescription(), err)
+	}
+	err = processor.UpdateCRLLocations(crlLocations)
+	if err != nil {
+		return err
+	}
 	result, err := R.crlReader.ReadCRL(processor, tempFileName)
 	if err != nil {
 		return err
@@ -180,6 +209,10 @@ func (R *Repository) loadCRL(entry *Entry, chains *core.CertificateChains) (err 
 		}
 	}
 	verifhook.Hit("repo.load.accepting", R, entry)
+	err = entry.CRLStore.Update(store)
+	if err != nil {
+		return err
+	}
 	entry.Loaded = true
 	entry.Chains = nil
 	verifhook.Hit("repo.load.accepted", R, entry)
